@@ -46,6 +46,8 @@ class Gen:
             return [m + " text", "second line"], [(m, 0, "paragraph")]
         if kind == "head":
             return ["## " + m], [(m, 0, "heading")]
+        if kind == "setext":  # a setext heading spans its text lines and the underline: the node belongs on the FIRST one
+            return [m + " title", "continued", "==="], [(m, 0, "heading")]
         if kind == "code":
             return ["```py", m, "```"], [(m, 0, "literal_block")]
         if kind == "tgt":
@@ -74,7 +76,7 @@ class Gen:
         raise ValueError(kind)
 
 
-LEAVES_Q = ["para", "para2", "head", "code", "tgt", "list", "tightlist", "unkdir", "unkrole", "optwarn", "quotepara", "firstline", "firstline2", "epigraph", "epigraph-blank"]
+LEAVES_Q = ["para", "para2", "head", "setext", "code", "tgt", "list", "tightlist", "unkdir", "unkrole", "optwarn", "quotepara", "firstline", "firstline2", "epigraph", "epigraph-blank"]
 
 
 def parse_dir(kind):
